@@ -214,6 +214,25 @@ def run(prop, tier):
                 print(r["tail"])
                 raise MachineryError(f"TLC failed on model instance {mol.name}")
 
+    # thorough tier: random behaviours of the machine for LARGE targets (TLC simulation mode; the exhaustive model no longer finishes there)
+    if tier == "thorough":
+        big = [I.scaled(m, factor=12) for m in I.core_instances() + I.extra_instances()
+               if any(not isinstance(e, I.Token) for e in m.elems) and not m.name.startswith(("negative", "plain", "neg"))][:24]
+
+        def sim_one(m):
+            tg = {i: [int(round(float(e.dist.par[0]) * 1000))] for i, e in enumerate(m.elems, 1) if not isinstance(e, I.Token)}
+            return G.model_check(m, tg, list(PROP_INVARIANTS[prop]), liveness=False, tag="sim", workers=1, simulate=(60, 600), timeout=900)
+        for m, r in zip(big, G.parallel(sim_one, big, workers=8)):
+            mc_states += r["states"]
+            mc_trans += r["states"]
+            if not r["ok"]:
+                if r["violated"]:
+                    v.violation(f"{prop}:model-simulation:{r['violated']}@{m.name}", f"the specification violates {r['violated']} on a random behaviour of {m.text()}\n{r['tail']}", {"instance": m.text()})
+                else:
+                    print(r["tail"])
+                    raise MachineryError(f"TLC simulation failed on {m.name}")
+        mc_results.append({"name": "simulation-mode", "instances": len(big), "behaviours_each": 60, "max_depth": 600})
+
     # ---- (2) conformance ----
     census = {}
     tot_nodes = tot_paths = tot_states = 0
